@@ -39,6 +39,13 @@ ASSUME \A u \in {<<71>>, <<65>>, <<71, 65>>, <<65, 67, 71, 84>>, <<67, 65, 65, 7
                  /\ GcRepOk(u, r, step, (c * Scale) \div n) /\ GcOk(t, step, (c * Scale) \div n)
                  /\ ~GcRepOk(u, r, step, (c * Scale) \div n + 3) /\ ((c * Scale) \div n >= 2 => ~GcRepOk(u, r, step, (c * Scale) \div n - 2))
 
+\* segments: the chunk-free fraction equals the fraction of the written-out sequence (cross-multiplied)
+ASSUME \A ua \in {<<71>>, <<71, 65, 84, 67>>, <<99, 65>>} : \A ub \in {<<65>>, <<103, 65>>, <<65, 84, 71, 67, 67>>} :
+         \A ma \in 0..2 : \A mb \in 0..2 : \A chunk \in {3, 6} : \A step \in {1, 3} :
+           LET segs == << [unit |-> ua, m |-> ma], [unit |-> ub, m |-> mb] >>
+               t == Sampled(SegsWritten(segs, chunk), step)
+           IN  GcCount(t) * SegSum(segs, 1, step, "len") = SegSum(segs, 1, step, "gc") * Len(t)
+
 VARIABLES seq, minlen, index, codon, pend, found, out, pc
 vars == <<seq, minlen, index, codon, pend, found, out, pc>>
 
